@@ -28,9 +28,157 @@ fn problems() -> Vec<(Prob, f64)> {
     vec![(base(Base::Harmonic(2.0)), 3.0), (warp(&base(Base::Logistic(2.0)), Warp::Sin), 3.0), (base(Base::Lin3), 2.0), (vdp(3.0), 4.0), (warp(&base(Base::Rational), Warp::Quad), 1.5)]
 }
 
+// ---------------------------------------------------------------------------------------------
+// call sequences: "repeating the same call yields bit-identical results" - also when other calls were made in
+// between, in the same process and thread.  Every ordered pair (i, j) of a small alphabet of calls is executed in a
+// fresh child process as the sequence i, j, i; the child prints a fingerprint of each result.
+
+fn seq_calls() -> Vec<(String, Prob, Cfg)> {
+    let mut v = vec![];
+    for m in M6 {
+        // scenario 0: scalar decay, forward
+        let p = base(Base::Decay(-1.0));
+        let mut c = Cfg::new(m, 0.0, 1.0, &p.y0).tol(1e-6, 1e-8);
+        c.user_jac = true;
+        v.push((format!("{} decay n=1 forward", mname(m)), p, c));
+        // scenario 1: oscillator, dense output, looser tolerance
+        let p = base(Base::Harmonic(2.0));
+        let mut c = Cfg::new(m, 0.0, 2.0, &p.y0).tol(1e-4, 1e-6);
+        c.user_jac = true;
+        c.dense = true;
+        v.push((format!("{} harmonic n=2 forward dense", mname(m)), p, c));
+        // scenario 2: three components, backward, requested times, differenced Jacobian
+        let p = reflect(&base(Base::Lin3));
+        let mut c = Cfg::new(m, 0.0, -1.5, &p.y0).tol(1e-8, 1e-10);
+        c.t_eval = Some((0..=6).map(|i| -1.5 * i as f64 / 6.0).collect());
+        v.push((format!("{} lin3 n=3 backward t_eval", mname(m)), p, c));
+        // scenario 3: nonlinear scalar with events and a large state scale
+        let p0 = base(Base::Logistic(2.0));
+        let mut c = Cfg::new(m, 0.5, 2.0, &p0.y0).tol(1e-5, 1e-7);
+        c.events = vec![EventSpec::new(EvKind::Y(0, 0.8)), EventSpec::new(EvKind::T(1.3)).dir(Direction::Positive)];
+        c.first_step = if m == Method::RK4 { Some(0.03) } else { None };
+        v.push((format!("{} logistic n=1 events", mname(m)), p0.clone(), c.clone()));
+        // scenario 4: the same with the first event terminal
+        let mut c4 = c.clone();
+        c4.events[0].terminal = Some(1);
+        v.push((format!("{} logistic n=1 first event terminal", mname(m)), p0.clone(), c4));
+        // scenario 5 / 6: the oscillator with 13 requested times, and with 3
+        let p = base(Base::Harmonic(2.0));
+        let mut c5 = Cfg::new(m, 0.0, 2.0, &p.y0).tol(1e-4, 1e-6);
+        c5.user_jac = true;
+        c5.t_eval = Some((0..=12).map(|i| 2.0 * i as f64 / 12.0).collect());
+        v.push((format!("{} harmonic n=2 t_eval(13)", mname(m)), p.clone(), c5.clone()));
+        let mut c6 = c5.clone();
+        c6.t_eval = Some(vec![0.4, 1.0, 1.6]);
+        v.push((format!("{} harmonic n=2 t_eval(3)", mname(m)), p.clone(), c6));
+        // scenario 7: the oscillator from the same initial data under a small max_step, dense
+        let mut c7 = Cfg::new(m, 0.0, 2.0, &p.y0).tol(1e-4, 1e-6);
+        c7.user_jac = true;
+        c7.max_step = Some(0.01);
+        c7.dense = true;
+        v.push((format!("{} harmonic n=2 max_step 0.01", mname(m)), p.clone(), c7));
+        // scenario 8: three components with a banded Jacobian storage (the band holds everything)
+        let p3 = base(Base::Lin3);
+        let mut c8 = Cfg::new(m, 0.0, 1.5, &p3.y0).tol(1e-6, 1e-8);
+        c8.user_jac = true;
+        c8.jac_storage = ivp::matrix::MatrixStorage::Banded { ml: 2, mu: 2 };
+        v.push((format!("{} lin3 n=3 banded(2,2) Jacobian", mname(m)), p3, c8));
+        // scenario 9: a different scalar problem continued from where scenario 0 ends (x0 = 1, y0 = e^-1)
+        let p9 = Prob { y0: vec![(-1.0f64).exp()], ..base(Base::Logistic(1.5)) };
+        let mut c9 = Cfg::new(m, 1.0, 2.0, &p9.y0).tol(1e-6, 1e-8);
+        c9.user_jac = true;
+        v.push((format!("{} logistic n=1 continued from (1, e^-1)", mname(m)), p9, c9));
+    }
+    v
+}
+
+fn seq_fp(p: &Prob, c: &Cfg) -> u128 {
+    let r = run(p, c);
+    let mut h = r.st.fp;
+    h.s(&r.outcome_name());
+    if let Some(s) = r.sol() {
+        h.fs(&s.t);
+        for y in &s.y {
+            h.fs(y);
+        }
+        for l in &s.t_events {
+            h.fs(l);
+        }
+        for u in [s.nfev, s.njev, s.nlu, s.nstep, s.naccpt, s.nrejct] {
+            h.u(u as u64);
+        }
+        if let Some((a, b)) = s.sol_span() {
+            if let Ok(v) = s.sol(a + 0.37 * (b - a)) {
+                h.fs(&v);
+            }
+        }
+    }
+    h.as_u128()
+}
+
+/// child mode: `ivpv C12 --seq i j` runs calls i, j, i in this (fresh) process and prints the three fingerprints
+pub fn seq_child(i: usize, j: usize) -> i32 {
+    let calls = seq_calls();
+    let (a, b) = (&calls[i], &calls[j]);
+    let f1 = seq_fp(&a.1, &a.2);
+    let f2 = seq_fp(&b.1, &b.2);
+    let f3 = seq_fp(&a.1, &a.2);
+    println!("SEQ {:032x} {:032x} {:032x}", f1, f2, f3);
+    0
+}
+
+fn seq_spawn(i: usize, j: usize) -> Option<(u128, u128, u128)> {
+    let exe = std::env::current_exe().ok()?;
+    let out = std::process::Command::new(exe).arg("C12").arg("--seq").arg(i.to_string()).arg(j.to_string()).output().ok()?;
+    let txt = String::from_utf8_lossy(&out.stdout).to_string();
+    let line = txt.lines().find(|l| l.starts_with("SEQ "))?;
+    let f: Vec<u128> = line.split_whitespace().skip(1).filter_map(|x| u128::from_str_radix(x, 16).ok()).collect();
+    if f.len() == 3 {
+        Some((f[0], f[1], f[2]))
+    } else {
+        None
+    }
+}
+
+/// verdict for the ordered pair (i, j); `alone_j` is the fingerprint of call j as the first call of a fresh process
+fn seq_verdict(i: usize, j: usize, got: Option<(u128, u128, u128)>, alone_j: Option<u128>, calls: &[(String, Prob, Cfg)]) -> Vec<Violation> {
+    let key = format!("seq:{}.{}", i, j);
+    let case = json!({"key": key, "first_call": calls[i].0, "second_call": calls[j].0});
+    let mut v = vec![];
+    match (got, alone_j) {
+        (Some((a1, b2, a3)), Some(bj)) => {
+            if a1 != a3 {
+                v.push(Violation::new(&key, "repeat-after-other-call", format!("the call [{}] gives a different result when it is repeated after the call [{}] in the same process", calls[i].0, calls[j].0), case.clone()));
+            }
+            if b2 != bj {
+                v.push(Violation::new(&key, "call-after-other-call", format!("the call [{}] gives a different result after the call [{}] than as the first call of a process", calls[j].0, calls[i].0), case.clone()));
+            }
+        }
+        _ => v.push(Violation::new(&key, "sequence-crashed", format!("the sequence [{}], [{}], [{}] did not run to completion in a child process", calls[i].0, calls[j].0, calls[i].0), case)),
+    }
+    v
+}
+
 pub fn run_check(replay: Option<Value>) -> i32 {
     let mut rep = Report::new("C12", "model_checking");
     let only = replay.as_ref().and_then(|c| c["key"].as_str().map(|s| s.to_string()));
+    if let Some(o) = &only {
+        if let Some(rest) = o.strip_prefix("seq:") {
+            let ij: Vec<usize> = rest.split('.').filter_map(|x| x.parse().ok()).collect();
+            let calls = seq_calls();
+            if ij.len() == 2 && ij[0] < calls.len() && ij[1] < calls.len() {
+                let vs = seq_verdict(ij[0], ij[1], seq_spawn(ij[0], ij[1]), seq_spawn(ij[1], ij[1]).map(|f| f.0), &calls);
+                for v in &vs {
+                    println!("replay: VIOLATED [{}]: {}", v.sig["check"], v.msg);
+                }
+                if vs.is_empty() {
+                    println!("replay: property holds on this case");
+                }
+                return if vs.is_empty() { 0 } else { 1 };
+            }
+            return 2;
+        }
+    }
     let thorough = is_thorough();
     let probs = problems();
     let tols: Vec<f64> = if thorough { vec![1e-2, 1e-3, 1e-4, 1e-5, 1e-6, 1e-7, 1e-8, 1e-9, 1e-10] } else { vec![1e-3, 1e-6, 1e-9] };
@@ -387,6 +535,24 @@ pub fn run_check(replay: Option<Value>) -> i32 {
         out.sample = Some(desc);
         Some(out)
     });
+    if only.is_none() {
+        let calls = seq_calls();
+        let n = calls.len();
+        let pairs: Vec<(usize, usize)> = (0..n).flat_map(|i| (0..n).map(move |j| (i, j))).collect();
+        let res = crate::util::par_map(pairs.len(), |k| seq_spawn(pairs[k].0, pairs[k].1));
+        let alone: Vec<Option<u128>> = (0..n).map(|j| res[j * n + j].map(|f| f.0)).collect();
+        let mut distinct = std::collections::HashSet::new();
+        for (k, (i, j)) in pairs.iter().enumerate() {
+            rep.evaluations += 1;
+            rep.validated += 2;
+            if let Some(f) = res[k] {
+                distinct.insert(f.1);
+            }
+            rep.violations.extend(seq_verdict(*i, *j, res[k], alone[*j], &calls));
+        }
+        *rep.tags.entry("call-sequences".into()).or_insert(0) += pairs.len() as u64;
+        *rep.tags.entry("call-sequence-distinct-results".into()).or_insert(0) += distinct.len() as u64;
+    }
     if only.is_some() {
         for v in &rep.violations {
             println!("replay: VIOLATED [{}]: {}\n{}", v.sig["check"], v.msg, serde_json::to_string_pretty(&v.case).unwrap());
@@ -401,6 +567,8 @@ pub fn run_check(replay: Option<Value>) -> i32 {
     rep.require("tiny-span", 12);
     rep.require("interval-across-zero", 60);
     rep.require("run-ended-by-the-stiffness-test", 2);
+    rep.require("call-sequences", 500);
+    rep.require("call-sequence-distinct-results", 20);
     rep.rule = "for every lattice point the plain run and all 8 subsets of {t_eval, dense_output, non-terminal events} are run twice; oracle: identical 128-bit fingerprint of every non-Jacobian RHS call (time and state bits: the complete record of the integration), identical statistics, identical accepted steps and states when no t_eval is given, final state, repeatability; runs of more than 1.3e5 accepted steps with {dense}, {t_eval}, {t_eval dense}; distinct = distinct plain-run fingerprints".into();
     rep.finish()
 }
